@@ -377,6 +377,13 @@ def run(ctx):
         ctx.rule("R9.1", "see C09 R9.1 (shared): every adapter constructor builds its queue by the bounded `new` applied to its own limit parameter")
         c09.r9_4(ctx, R, res["INSERT"][0], res["INSERT"][1])
         r10_6(ctx, R, ms, res["INSERT"][0])
+        # the ordered adapters rely on the ordered queue handing out everything it accepted, in order: the index discipline
+        import c04
+        ot = c04.ordered_types(ctx)
+        c04.r4_1(ctx, R, ot)
+        c04.r4_7(ctx, R, ot)
+        ctx.rule("R4.1", "see C04 R4.1 / R4.7 (shared): index discipline of the ordered collections and who may number -- an accepted future "
+                         "whose index never comes into turn is an upstream item that is pulled but never delivered, and the adapter never ends")
         # the path model reads a refusing fill guard as "the queue is saturated" (so "Pending, upstream present and not polled,
         # nothing in flight" is infeasible): that reading is C09 R9.2's refusal direction, re-established here
         before = len(ctx.obs)
